@@ -4,7 +4,7 @@
    permutation. *)
 Require Import Cherab.Common.Qx.
 From Coq Require Import String Ascii DecimalString Qabs Sorting.Sorted Permutation.
-Require Import Cherab.Model.C19_Registry Cherab.Proofs.C19_Registry.
+Require Import Cherab.Model.C19_Registry Cherab.Model.C19_Shape Cherab.Model.C19_Args Cherab.Proofs.C19_Registry.
 Local Open Scope Z_scope.
 
 (* ---- the builders' loop refines [last_with] ------------------------------------------------------- *)
@@ -240,3 +240,59 @@ Section SpeciesDictMap.
     - eapply set_ok; eauto.
   Qed.
 End SpeciesDictMap.
+
+(* ---- argument-validation policy of the constructors (Model/C19_Args.v) ------------------------------------- *)
+Lemma conv_int_range v z : conv_int v = Done z -> in_int z = true.
+Proof.
+  destruct v; simpl; try discriminate.
+  - destruct (in_int z0) eqn:E; [|discriminate]. intros H; inversion H; subst; exact E.
+  - destruct b; intros H; inversion H; reflexivity.
+  - destruct (in_int (trunc q)) eqn:E; [|discriminate]. intros H; inversion H; subst; exact E.
+Qed.
+
+(* whatever is passed to Element(...): if an object is built, its atomic number fits a C int, its name and
+   symbol are the str arguments and nothing else was accepted in their place *)
+Lemma element_init_sound args e : element_init_py args = Done e ->
+  in_int (e_Z e) = true /\ exists n s zv wv, args = [PStr n; PStr s; zv; wv] /\ e_name e = n /\ e_symbol e = s
+                                         /\ conv_int zv = Done (e_Z e) /\ conv_double wv = Done (e_weight e).
+Proof.
+  unfold element_init_py, convert_args, element_init_sig.
+  destruct args as [|a [|b [|c [|d [|x t]]]]]; try discriminate.
+  cbn [List.length Nat.eqb negb pass1 conv_c].
+  destruct (conv_int c) as [z| |] eqn:Ci; destruct (conv_double d) as [w| |] eqn:Cd;
+    destruct a; destruct b; cbn; try discriminate.
+  intros HH. inversion HH; subst. cbn. split; [eapply conv_int_range; eauto|].
+  do 4 eexists. repeat split; eauto.
+Qed.
+
+Lemma new_line_ok o c tr l : new_line o c tr = Ok l -> l = mkLine o c tr /\ 0 <= c <= species_Z o - 1.
+Proof.
+  unfold new_line. destruct (Z.gtb_spec c (species_Z o - 1)); [discriminate|].
+  destruct (Z.ltb_spec c 0); [discriminate|]. intros E; inversion E. split; [reflexivity | lia].
+Qed.
+
+(* whatever is passed to Line(...): if a line is built, 0 <= charge <= Z - 1 for its species *)
+Lemma line_init_sound args l : line_init_py args = Done l ->
+  0 <= l_charge l <= species_Z (l_element l) - 1 /\ in_int (l_charge l) = true.
+Proof.
+  unfold line_init_py.
+  destruct args as [|a [|c [|t [|x r]]]];
+    try solve [destruct (convert_args line_init_sig _); discriminate
+              | destruct a; destruct (convert_args line_init_sig _); discriminate].
+  destruct a; try solve [destruct (convert_args line_init_sig _); discriminate].
+  unfold convert_args, line_init_sig. cbn [List.length Nat.eqb negb pass1 conv_c].
+  destruct (conv_int c) as [z| |] eqn:Ci; cbn; try solve [destruct o; destruct t; cbn; discriminate].
+  destruct o as [e|i]; destruct t; cbn; try discriminate.
+  + destruct (new_line (SE e) z l0) eqn:N; [|discriminate]. intros HH; inversion HH; subst.
+    apply new_line_ok in N. destruct N as [-> N]. cbn. split; [exact N | eapply conv_int_range; eauto].
+  + destruct (new_line (SI i) z l0) eqn:N; [|discriminate]. intros HH; inversion HH; subst.
+    apply new_line_ok in N. destruct N as [-> N]. cbn. split; [exact N | eapply conv_int_range; eauto].
+Qed.
+
+Lemma element_init_complete n s z w : in_int z = true ->
+  element_init_py [PStr n; PStr s; PInt z; PFloat w] = Done (new_element n s z w).
+Proof. intros H. unfold element_init_py, convert_args, element_init_sig. cbn. rewrite H. reflexivity. Qed.
+
+Lemma isotope_init_complete n s el a w : in_int a = true ->
+  isotope_init_py [PStr n; PStr s; PSpecies (SE el); PInt a; PFloat w] = Done (new_isotope n s el a w).
+Proof. intros H. unfold isotope_init_py, convert_args, isotope_init_sig. cbn. rewrite H. reflexivity. Qed.
